@@ -18,6 +18,7 @@ import (
 	"fmt"
 	"net"
 	"os"
+	"runtime"
 	"strconv"
 	"testing"
 	"time"
@@ -251,7 +252,7 @@ func buildWorld(t *testing.T, c Cfg, tr *vtrace.Tracer) *world {
 				return &mtasts.Policy{Mode: mode, MX: mx, MaxAge: 3600}, nil
 			}, nolog))
 		case name == "dane" && has(c.Pols, "dane"):
-			pols = append(pols, &danePolicyWrap{inner: remote.VerifRemoteDANEPolicy(ext, nolog), gate: w.gate})
+			pols = append(pols, &danePolicyWrap{inner: remote.VerifRemoteDANEPolicy(ext, nolog), gate: w.gate, tr: tr})
 		case name == "dnssec" && has(c.Pols, "dnssec"):
 			pols = append(pols, remote.VerifRemoteDNSSECPolicy())
 		case name == "local_policy" && has(c.Pols, "local"):
@@ -300,6 +301,13 @@ func runBehaviour(t *testing.T, b Behaviour, out *bufio.Writer) {
 	start := time.Now()
 	tr := vtrace.New(out, b.ID)
 	tr.Emit("Cfg", cfgEvent(b.Cfg))
+	for _, f := range b.Cfg.MX {
+		if f.Slow {
+			// make "the lookup goroutine has not run yet when the client moves on" the usual case
+			defer runtime.GOMAXPROCS(runtime.GOMAXPROCS(1))
+			break
+		}
+	}
 	w := buildWorld(t, b.Cfg, tr)
 	defer w.close()
 	ctx, cancel := context.WithTimeout(context.Background(), harnessBudget)
@@ -344,7 +352,7 @@ func runBehaviour(t *testing.T, b Behaviour, out *bufio.Writer) {
 		t.Fatalf("HARNESS-TIMEOUT behaviour %d: %v", b.ID, err)
 	}
 	tr.Emit("End", vtrace.Ev{})
-	if w.net.TimedOut || time.Since(start) > harnessBudget || ctx.Err() != nil {
+	if w.net.TimedOut || w.gate.TimedOut() || time.Since(start) > harnessBudget || ctx.Err() != nil {
 		t.Fatalf("HARNESS-TIMEOUT behaviour %d took %v", b.ID, time.Since(start))
 	}
 }
